@@ -3,22 +3,20 @@ import UralModel.Props.C13Psl
 # C12 with suffix_trie.py inside — nothing assumed about `split_suffix`
 
 `Props/C12.lean` states the suffix-aware clauses for an arbitrary `split_suffix` under C08's
-clause "the two parts re-join to the lower-cased hostname" (`SplitRejoinsUrl`).  For the real
-`split_suffix` that clause is **false** on a host with a trailing dot (`a.co.uk.` is split into
-`("a", "co.uk")`: suffix_trie.py strips trailing dots before it walks) and on a host made of a
-dot and a public suffix (`.co.uk` → `("", "co.uk")`).  Here `split_suffix` is the model of
-suffix_trie.py itself (`pslSplit lines`, `Model/LruPsl.lean`: the trie walk of the C08
-development on the trie built from any suffix list) and the hypothesis disappears:
+clause "the two parts re-join to the lower-cased hostname without its trailing dots"
+(`SplitRejoinsUrl`).  Here `split_suffix` is the model of suffix_trie.py itself (`pslSplit lines`,
+`Model/LruPsl.lean`: the trie walk of the C08 development on the trie built from any suffix list),
+the clause is a theorem (`C13.splitRejoins_psl`) and the hypothesis disappears:
 
 * `serialization_string_psl` — serialisation is invertible on the LRU of EVERY `|`-free URL
-  string the parser accepts, both modes, **no hypothesis** (trailing dots included);
-* `roundtrip_string_psl`, `accessors_string_psl` — URL → LRU → URL on the class `inClass`,
-  suffix-aware mode under the exact host condition `pslHostOK` (bracketed literal, or neither
-  leading nor trailing dot); C08's case clause for hosts with `%` is discharged too
-  (`C13.splitCaseInv_psl`);
-* `fullRoundtripStringPsl_false` — outside `pslHostOK` the round trip really loses the dot
-  (known finding KF-C12-2): `http://a.co.uk./` comes back as `http://a.co.uk/` in suffix-aware
-  mode, while `suffix_aware=False` keeps the root label as an empty stem.
+  string the parser accepts, both modes, **no hypothesis**;
+* `roundtrip_string_psl`, `accessors_string_psl` — URL → LRU → URL on the class `inClass`, both
+  modes, **no host condition** (the former `pslHostOK`: "no leading / trailing dot" is gone since
+  FX-C12-EMPTYLABELS: stems.py emits the empty labels `split_suffix` does not return); C08's case
+  clause for hosts with `%` is discharged too (`C13.splitCaseInv_psl`);
+* `fullRoundtripStringPsl` — the full statement on the class, formerly refuted by
+  `http://a.co.uk./` (known finding KF-C12-2), is a theorem; the former witnesses are `example`s
+  of the round trip.
 -/
 set_option linter.unusedSectionVars false
 set_option linter.unusedSimpArgs false
@@ -54,28 +52,20 @@ theorem stems_wellformed_psl (lines : List Str) (sa : Bool) (p : Parts) (hb : no
     StemsOK (lruStems (pslSplit lines) sa p) :=
   stems_ok_psl lines sa p hb
 
-/-- C08's re-join clause for suffix_trie.py on every netloc of the grammar whose host is
-`pslHostOK` -/
-theorem splitLaw_psl_class (lines : List Str) (n : Str) (hwf : wfNetloc n = true)
-    (hh : pslHostOK (specHost n) = true) : SplitLaw (pslSplit lines) n := by
-  cases hb : (specHost n).head? == some '[' with
-  | true => exact splitLaw_bracketed _ n hb
-  | false =>
-    obtain ⟨_, _, _, hshape, _⟩ := wfNetloc_shape hwf
-    rcases hshape with ⟨inner, hin, _⟩ | hp
-    · rw [hin] at hb; simp at hb
-    · simp only [pslHostOK, hb, Bool.false_or, Bool.and_eq_true, bne_iff_ne, ne_eq] at hh
-      exact splitLaw_psl_plain lines n hwf hp hh.1 hh.2
+/-- `SplitLaw` for suffix_trie.py on EVERY netloc of the grammar (`C13.splitLaw_psl` under the name
+the string-level theorems use; the former host condition `pslHostOK` is gone) -/
+theorem splitLaw_psl_class (lines : List Str) (n : Str) (hwf : wfNetloc n = true) :
+    SplitLaw (pslSplit lines) n :=
+  splitLaw_psl lines n hwf
 
 /-- **URL → LRU → URL is lossless, on URL strings, with suffix_trie.py inside** (any suffix
-list).  For every string `u` of the class `inClass` — and, suffix-aware, a host that is a
-bracketed literal or neither starts nor ends with a dot (`pslHostOK`) —: the conclusions of
+list).  For every string `u` of the class `inClass`, both modes, EVERY host of the grammar —
+trailing dots, a leading dot, `%`, bracketed literals —: the conclusions of
 `roundtrip_string_partial` (same `back` from the stems and from the serialised LRU;
 `urlsplit(back)` is exactly `expectedParts`; `url_to_lru(back) = url_to_lru(u)`), with NOTHING
 assumed about `split_suffix`: C08's re-join clause is `splitLaw_psl_class`, C08's case clause
-(plain hosts with `%`) is `C13.splitCaseInv_psl`. -/
-theorem roundtrip_string_psl (lines : List Str) (sa : Bool) (u : Str) (hc : inClass u = true)
-    (hh : sa = true → ∀ p, urlParts u = some p → pslHostOK (specHost p.netloc) = true) :
+(plain hosts with `%`) is `C13.splitCaseInv_psl`.  No host condition is left (FX-C12-EMPTYLABELS). -/
+theorem roundtrip_string_psl (lines : List Str) (sa : Bool) (u : Str) (hc : inClass u = true) :
     ∃ p back,
       urlParts u = some p ∧
       lruStemsUrl (pslSplit lines) sa u = some (lruStems (pslSplit lines) sa p) ∧
@@ -90,15 +80,16 @@ theorem roundtrip_string_psl (lines : List Str) (sa : Bool) (u : Str) (hc : inCl
   have c := classFacts hcp
   apply roundtrip_string_of_law (pslSplit lines) sa u hc
   · intro h q hq
-    exact splitLaw_psl_class lines _ (by rw [hp] at hq; cases hq; exact c.wf) (hh h q hq)
+    exact splitLaw_psl_class lines _ (by rw [hp] at hq; cases hq; exact c.wf)
   · intro _ q _ _
     exact splitCaseInv_psl lines _
 
 /-- the same in CPython's vocabulary (`accessors_string_partial` with suffix_trie.py inside):
-`B.hostname == A.hostname`, same port, user / password up to empty ≡ absent; suffix-aware: a
-plain host has no `%` (`hpct`) -/
+`B.hostname == A.hostname`, same port, user / password up to empty ≡ absent.  The only hypothesis
+left, suffix-aware: a plain host has no `%` (`hpct`) — really needed: CPython's `.hostname` keeps
+the letter case of what follows a `%`, the suffix-aware mode lower-cases the whole host
+(`http://a%B.com/` comes back as `http://a%b.com/`, witness below and in `Props/C12.lean`) -/
 theorem accessors_string_psl (lines : List Str) (sa : Bool) (u : Str) (hc : inClass u = true)
-    (hh : sa = true → ∀ p, urlParts u = some p → pslHostOK (specHost p.netloc) = true)
     (hpct : sa = true → ∀ p, urlParts u = some p → wfHostSA p.netloc = true) :
     ∃ A B back,
       urlParts u = some A ∧
@@ -114,81 +105,86 @@ theorem accessors_string_psl (lines : List Str) (sa : Bool) (u : Str) (hc : inCl
   have c := classFacts hcp
   apply accessors_string_of_law (pslSplit lines) sa u hc _ hpct
   intro h q hq
-  exact splitLaw_psl_class lines _ (by rw [hp] at hq; cases hq; exact c.wf) (hh h q hq)
+  exact splitLaw_psl_class lines _ (by rw [hp] at hq; cases hq; exact c.wf)
 
-/-! ## non-vacuity, and the region that is excluded (KF-C12-2) -/
-
-example : pslHostOK "WWW.A.CO.UK".toList = true ∧ pslHostOK "[::1%a.co.uk]".toList = true ∧
-    pslHostOK "a%B.co.uk".toList = true ∧ pslHostOK "a..co.uk".toList = true ∧
-    pslHostOK "a.co.uk.".toList = false ∧ pslHostOK ".co.uk".toList = false := by decide
-
-/-- the hypotheses of `roundtrip_string_psl` hold on a non-trivial URL, and the round trip is
-what the real code returns -/
-example : inClass "HTTP://u:p@WWW.A.CO.UK:80/x//y/?q#f".toList = true ∧
-    (∀ p, urlParts "HTTP://u:p@WWW.A.CO.UK:80/x//y/?q#f".toList = some p →
-      pslHostOK (specHost p.netloc) = true) ∧
-    urlToLru (pslSplit demoLines) true "HTTP://u:p@WWW.A.CO.UK:80/x//y/?q#f".toList =
-      some "s:http|t:80|h:co.uk|h:a|h:www|p:x|p:|p:y|p:|q:q|f:f|u:u|w:p|".toList ∧
-    (urlToLru (pslSplit demoLines) true "HTTP://u:p@WWW.A.CO.UK:80/x//y/?q#f".toList).bind
-      (fun l => (lruToUrlStr l).toOption) = some "http://u:p@www.a.co.uk:80/x//y/?q#f".toList := by
-  refine ⟨by decide +kernel, ?_, by decide +kernel, by decide +kernel⟩
-  intro p hp
-  have : urlParts "HTTP://u:p@WWW.A.CO.UK:80/x//y/?q#f".toList = some demo1 := by decide +kernel
-  rw [this] at hp
-  cases hp
-  decide +kernel
-
-/-- the full statement: the suffix-aware round trip on the whole class, without the host
+/-- the full statement: the suffix-aware round trip on the whole class, without any host
 condition -/
 def FullRoundtripStringPsl (lines : List Str) : Prop :=
   ∀ (u : Str) (p : Parts), inClass u = true → urlParts u = some p →
     ∃ back, lruToUrl (lruStems (pslSplit lines) true p) = .ok back ∧
       reparse back = some (expectedParts (pslSplit lines) true p)
 
-/-- **KF-C12-2: outside `pslHostOK` the suffix-aware round trip loses the root label** —
-`http://a.co.uk./` is in the class, C08's clause fails on it (`a.co.uk.` is split into
-`("a", "co.uk")`, which re-joins to `a.co.uk`), the stems are `[s:http, h:co.uk, h:a, p:]` and
-`lru_to_url` returns `http://a.co.uk/`: the host `a.co.uk.` is not recovered.  (With
-`suffix_aware=False` the root label is the empty stem `h:` and the URL comes back unchanged:
-next example.) -/
-theorem fullRoundtripStringPsl_false : ¬ FullRoundtripStringPsl demoLines := by
-  intro h
-  have hp : urlParts "http://a.co.uk./".toList =
-      some { scheme := "http".toList, netloc := "a.co.uk.".toList, path := "/".toList,
-             query := [], fragment := [] } := by decide +kernel
-  obtain ⟨back, h1, h2⟩ := h "http://a.co.uk./".toList _ (by decide +kernel) hp
-  have e : (lruToUrl (lruStems (pslSplit demoLines) true
-      { scheme := "http".toList, netloc := "a.co.uk.".toList, path := "/".toList,
-        query := [], fragment := [] })).toOption = some "http://a.co.uk/".toList := by
-    decide +kernel
-  rw [h1] at e
-  simp only [Except.toOption, Option.some.injEq] at e
-  subst e
-  revert h2
+/-- **the full statement holds** (it was refuted by `http://a.co.uk./` before FX-C12-EMPTYLABELS:
+`fullRoundtripStringPsl_false`, known finding KF-C12-2) -/
+theorem fullRoundtripStringPsl (lines : List Str) : FullRoundtripStringPsl lines := by
+  intro u p hc hp
+  obtain ⟨q, back, hq, _, _, h4, _, h6, _⟩ := roundtrip_string_psl lines true u hc
+  rw [hp] at hq
+  cases hq
+  exact ⟨back, h4, h6⟩
+
+/-! ## non-vacuity; the former witnesses of KF-C12-2 round-trip; the `%` witness -/
+
+/-- the class holds a non-trivial URL, and the round trip is what the real code returns -/
+example : inClass "HTTP://u:p@WWW.A.CO.UK:80/x//y/?q#f".toList = true ∧
+    urlToLru (pslSplit demoLines) true "HTTP://u:p@WWW.A.CO.UK:80/x//y/?q#f".toList =
+      some "s:http|t:80|h:co.uk|h:a|h:www|p:x|p:|p:y|p:|q:q|f:f|u:u|w:p|".toList ∧
+    (urlToLru (pslSplit demoLines) true "HTTP://u:p@WWW.A.CO.UK:80/x//y/?q#f".toList).bind
+      (fun l => (lruToUrlStr l).toOption) = some "http://u:p@www.a.co.uk:80/x//y/?q#f".toList := by
   decide +kernel
 
-/-- the trailing-dot and the dot-plus-suffix witnesses, both modes: suffix-aware drops the dot,
-`suffix_aware=False` keeps it (the root label is the stem `h:`) -/
+/-- **the former witnesses of KF-C12-2 round-trip** (they refuted `FullRoundtripStringPsl` before
+the fix): trailing dot ×1, ×2, a lone leading dot, leading AND trailing, a bare suffix plus a dot,
+two leading dots, a leading dot under a wildcard (`.ck` is itself the suffix: one stem) — the
+suffix-aware stems hold the empty labels (`h:` before the suffix stem for each trailing dot, after
+it for the leading dot), `lru_to_url(url_to_lru(u)) = u`, like `suffix_aware=False` -/
 example :
     pslSplit demoLines "a.co.uk.".toList = some ("a".toList, "co.uk".toList) ∧
     urlToLru (pslSplit demoLines) true "http://a.co.uk./".toList =
-      some "s:http|h:co.uk|h:a|p:|".toList ∧
+      some "s:http|h:|h:co.uk|h:a|p:|".toList ∧
     (urlToLru (pslSplit demoLines) true "http://a.co.uk./".toList).bind
-      (fun l => (lruToUrlStr l).toOption) = some "http://a.co.uk/".toList ∧
+      (fun l => (lruToUrlStr l).toOption) = some "http://a.co.uk./".toList ∧
     urlToLru (pslSplit demoLines) false "http://a.co.uk./".toList =
       some "s:http|h:|h:uk|h:co|h:a|p:|".toList ∧
-    (urlToLru (pslSplit demoLines) false "http://a.co.uk./".toList).bind
-      (fun l => (lruToUrlStr l).toOption) = some "http://a.co.uk./".toList ∧
+    urlToLru (pslSplit demoLines) true "http://A.co.uk../x".toList =
+      some "s:http|h:|h:|h:co.uk|h:a|p:x|".toList ∧
+    (urlToLru (pslSplit demoLines) true "http://A.co.uk../x".toList).bind
+      (fun l => (lruToUrlStr l).toOption) = some "http://a.co.uk../x".toList ∧
     pslSplit demoLines ".co.uk".toList = some ([], "co.uk".toList) ∧
+    urlToLru (pslSplit demoLines) true "http://.co.uk/".toList =
+      some "s:http|h:co.uk|h:|p:|".toList ∧
     (urlToLru (pslSplit demoLines) true "http://.co.uk/".toList).bind
-      (fun l => (lruToUrlStr l).toOption) = some "http://co.uk/".toList ∧
-    (urlToLru (pslSplit demoLines) false "http://.co.uk/".toList).bind
-      (fun l => (lruToUrlStr l).toOption) = some "http://.co.uk/".toList := by
+      (fun l => (lruToUrlStr l).toOption) = some "http://.co.uk/".toList ∧
+    (urlToLru (pslSplit demoLines) true "http://.co.uk./".toList).bind
+      (fun l => (lruToUrlStr l).toOption) = some "http://.co.uk./".toList ∧
+    urlToLru (pslSplit demoLines) true "http://co.uk./".toList =
+      some "s:http|h:|h:co.uk|p:|".toList ∧
+    (urlToLru (pslSplit demoLines) true "http://co.uk./".toList).bind
+      (fun l => (lruToUrlStr l).toOption) = some "http://co.uk./".toList ∧
+    (urlToLru (pslSplit demoLines) true "http://..co.uk/".toList).bind
+      (fun l => (lruToUrlStr l).toOption) = some "http://..co.uk/".toList ∧
+    pslSplit demoLines ".ck".toList = some ([], ".ck".toList) ∧
+    urlToLru (pslSplit demoLines) true "http://.ck./".toList = some "s:http|h:|h:.ck|p:|".toList ∧
+    (urlToLru (pslSplit demoLines) true "http://.ck./".toList).bind
+      (fun l => (lruToUrlStr l).toOption) = some "http://.ck./".toList := by
   decide +kernel
 
-/-- serialisation is invertible there all the same (`serialization_string_psl` has no
-hypothesis) -/
-example : unserializeLru "s:http|h:co.uk|h:a|p:|".toList =
-    ["s:http", "h:co.uk", "h:a", "p:"].map String.toList := by decide +kernel
+/-- they are inside the class, so `roundtrip_string_psl` speaks about them -/
+example : inClass "http://a.co.uk./".toList = true ∧ inClass "http://.co.uk/".toList = true ∧
+    inClass "http://.co.uk./".toList = true ∧ inClass "http://a.co.uk../x".toList = true := by
+  decide +kernel
+
+/-- serialisation is invertible there (`serialization_string_psl` has no hypothesis) -/
+example : unserializeLru "s:http|h:|h:co.uk|h:a|p:|".toList =
+    ["s:http", "h:", "h:co.uk", "h:a", "p:"].map String.toList := by decide +kernel
+
+/-- the hypothesis `hpct` of `accessors_string_psl` is really needed, with suffix_trie.py inside
+too: `http://a%B.co.uk/` is in the class, comes back as `http://a%b.co.uk/` (the round trip of
+`roundtrip_string_psl`: hosts compared lower-cased), and CPython's `.hostname` differs -/
+example : inClass "http://a%B.co.uk/".toList = true ∧ wfHostSA "a%B.co.uk".toList = false ∧
+    (urlToLru (pslSplit demoLines) true "http://a%B.co.uk/".toList).bind
+      (fun l => (lruToUrlStr l).toOption) = some "http://a%b.co.uk/".toList ∧
+    Py.hostname "a%B.co.uk".toList ≠ Py.hostname "a%b.co.uk".toList := by
+  decide +kernel
 
 end Ural.Props.C12
